@@ -38,8 +38,9 @@ Absent == [v |-> "-", cls |-> "-"]
 
 (* Named deviations of SyncMap (never enabled for the sharded maps, and only used to CLASSIFY a sub-history that the    *)
 (* strict mode rejected):                                                                                              *)
-(*  DevJ  the janitor checks an entry and then deletes BY KEY: a Write of the key that overlaps the cycle (Cleanup line  *)
-(*        with quiet = FALSE) can be lost;                                                                              *)
+(*  DevJ  the janitor checks an entry and then deletes BY KEY: what a Write or an ExpireAll that overlaps the cycle      *)
+(*        (Cleanup line with quiet = FALSE) did to the key in between can be lost - the entry is removed although it is  *)
+(*        no longer "expired longer than DeleteExpiredAfter";                                                                              *)
 (*  DevE  ExpireAll updates the expiration IN PLACE with its own start time: a Read that overlaps it (Read line with     *)
 (*        quiet = FALSE) and sampled its clock earlier can take an expired entry for fresh.                             *)
 DevJ == Mode \in {"lin-syncjanitor", "lin-syncall"}
